@@ -62,6 +62,22 @@ func init() {
 					rc.Patterns = append(rc.Patterns, p)
 					rc.Raw = append(rc.Raw, rapid.Bool().Draw(rt, "raw"))
 				}
+				if rapid.IntRange(0, 4).Draw(rt, "twins") == 0 {
+					// twin patterns: the same shape at the same offsets, once with a group that consumes
+					// input and once with a group that can match the empty string
+					prefix := pickT(rt, "twinPrefix", []string{"", "x", "xy", "ab+c", "[a-z]"})
+					n := rapid.IntRange(1, 6).Draw(rt, "twinLen")
+					solid := "(?:" + strings.Repeat("a", n+2) + ")"
+					hollow := "(?:" + pickT(rt, "hollow", []string{"a||", "a*|", "b?|", "|a|"})[:3] + strings.Repeat("b", n-1) + ")"
+					if n == 1 {
+						hollow = "(?:" + pickT(rt, "hollow1", []string{"a||", "a*|", "b?|", "|a|"})[:3] + ")"
+					}
+					tail := pickT(rt, "twinTail", []string{"*", "*z", "*$"})
+					for _, g := range []string{solid, hollow, solid} {
+						rc.Patterns = append(rc.Patterns, prefix+g+g+tail)
+						rc.Raw = append(rc.Raw, false)
+					}
+				}
 				if len(rc.Patterns) == 0 {
 					rt.Skip("no compilable pattern")
 				}
